@@ -415,9 +415,50 @@ def _bindings(fn_node, name):
     return [v for n, v, st in name_stores(fn_node, into_nested=True) if n == name]
 
 
-def _adapted(e, fn_node, depth=0):
+def _terminal_values(e, fn_node, depth=0):
+    """the non-Name expressions a value may come from: locals through all their bindings, both arms of a conditional
+    expression, the operands of `a or b`."""
+    if depth > 5:
+        return [e]
+    if isinstance(e, ast.Name):
+        vs = _bindings(fn_node, e.id)
+        if not vs or any(v is None for v in vs):
+            return [e]
+        out = []
+        for v in vs:
+            out.extend(_terminal_values(v, fn_node, depth + 1))
+        return out
+    if isinstance(e, ast.IfExp):
+        return _terminal_values(e.body, fn_node, depth + 1) + _terminal_values(e.orelse, fn_node, depth + 1)
+    if isinstance(e, ast.BoolOp) and isinstance(e.op, ast.Or):
+        out = []
+        for v in e.values:
+            out.extend(_terminal_values(v, fn_node, depth + 1))
+        return out
+    return [e]
+
+
+def _follower(ix, f):
+    """follow(call) -> (callee FunctionDef, [returned expressions]) for `self.helper(...)` / a same-module function."""
+    def follow(call):
+        fn = call.func
+        tgt = None
+        if isinstance(fn, ast.Attribute) and isinstance(fn.value, ast.Name) and fn.value.id == "self" and f.cls is not None:
+            tgt = ix.resolve_method(f.cls, fn.attr)
+        elif isinstance(fn, ast.Name):
+            tgt = f.module.functions.get(fn.id)
+        if tgt is None or tgt.type_only or not isinstance(tgt.node, ast.FunctionDef):
+            return None
+        rets = [r.value for r in walk_local(tgt.node) if isinstance(r, ast.Return) and r.value is not None]
+        return (tgt.node, rets) if rets else None
+    return follow
+
+
+def _adapted(e, fn_node, depth=0, follow=None):
     """How a type expression was obtained: 'dialect-level' (`T.dialect_impl(d)`, `T._dialect_info(d)["impl"]`),
-    'decorator-impl' (`self.impl_instance` / `self.impl`), else 'raw:<text>'."""
+    'decorator-impl' (`self.impl_instance` / `self.impl`), else 'raw:<text>'.  Locals are resolved through all their
+    bindings, `obj.attr` through the stores into `obj.attr` made in the same function, `self.helper(...)` / a same-module
+    function through its return expressions (`follow`)."""
     if isinstance(e, ast.Call) and isinstance(e.func, ast.Attribute) and e.func.attr == ADAPT:
         return "dialect-level"
     if isinstance(e, ast.Subscript) and isinstance(e.slice, ast.Constant) and e.slice.value == "impl":
@@ -433,15 +474,28 @@ def _adapted(e, fn_node, depth=0):
         return "decorator-impl"
     if isinstance(e, ast.Name) and depth < 4:
         vs = _bindings(fn_node, e.id)
-        kinds = {_adapted(v, fn_node, depth + 1) if v is not None else "raw:?" for v in vs}
+        kinds = {_adapted(v, fn_node, depth + 1, follow) if v is not None else "raw:?" for v in vs}
         if len(kinds) == 1:
             return next(iter(kinds))
         if kinds:
             return "raw:" + "/".join(sorted(kinds))
+    if isinstance(e, ast.Attribute) and isinstance(e.value, ast.Name) and e.value.id != "self" and depth < 4:
+        # `tt.impl_instance` read back after `tt.impl_instance = <x>` in the same function
+        vs = [st.value for t, node, st in attr_stores(fn_node) if t == d and isinstance(st, ast.Assign)]
+        kinds = {_adapted(v, fn_node, depth + 1, follow) for v in vs}
+        if len(kinds) == 1:
+            return next(iter(kinds))
+    if isinstance(e, ast.Call) and follow is not None and depth < 3:
+        tgt = follow(e)
+        if tgt is not None:
+            callee, rets = tgt
+            kinds = {_adapted(v, callee, depth + 1, follow) for v in rets}
+            if len(kinds) == 1:
+                return next(iter(kinds))
     return "raw:" + unparse(e)[:60]
 
 
-@R.rule("C09-R3", floor=24, template="T-FLOW/T-SIBLING",
+@R.rule("C09-R3", floor=20, template="T-FLOW/T-SIBLING",
         desc="a processor taken from a component type (impl of a TypeDecorator, item type, out-parameter type, the cached "
              "impl) is taken from the component's dialect-level form: `T.dialect_impl(dialect)` / the _dialect_info memo; "
              "`self.impl_instance` qualifies because TypeDecorator._gen_dialect_impl installs "
@@ -467,33 +521,37 @@ def r3(ctx):
                 sites.append((f, c, recv))
     ctx.require(sites, "no component processor call found")
     uses_decorator_impl = []
-    counts = {}
+    # one instance per (function, receiver.kind): a function that asks the same component for the same kind of
+    # processor at several places (one per branch) or at one place (hoisted above the branches) is the same
+    # obligation -- the floor counts obligations, not call expressions
+    groups = {}
     for f, c, recv in sites:
         base = f"{f.key}:{(dotted(recv) or unparse(recv))[:40].rsplit('.', 1)[-1]}.{c.func.attr}"
-        counts[base] = counts.get(base, 0) + 1
-    seen = {}
-    for f, c, recv in sites:
+        groups.setdefault(base, []).append((f, c, recv))
+    counts = groups
+    for key, members in groups.items():
+        f = members[0][0]
         ctx.functions_analysed.add(f.key)
-        base = f"{f.key}:{(dotted(recv) or unparse(recv))[:40].rsplit('.', 1)[-1]}.{c.func.attr}"
-        seen[base] = seen.get(base, 0) + 1
-        key = base if counts[base] == 1 else f"{base}#{seen[base]}"
-        loc = f"{f.module.path}:{c.lineno}"
-        how = _adapted(recv, f.node)
-        if key.split("#")[0] in R3_EXCEPTIONS:
-            ctx.check(how.startswith("raw:"), key, "listed as exempt but is now dialect-level: remove it from R3_EXCEPTIONS",
-                      "exempt: " + R3_EXCEPTIONS[key.split("#")[0]], loc, nontrivial=False)
+        loc = f"{f.module.path}:{members[0][1].lineno}"
+        hows = [(_adapted(recv, f.node, follow=_follower(ix, f)), c, recv) for f_, c, recv in members]
+        if key in R3_EXCEPTIONS:
+            ctx.check(all(h.startswith("raw:") for h, _c, _r in hows), key, "listed as exempt but is now dialect-level: remove it from R3_EXCEPTIONS",
+                      "exempt: " + R3_EXCEPTIONS[key], loc, nontrivial=False)
             continue
-        if how == "decorator-impl":
+        if all(h == "decorator-impl" for h, _c, _r in hows):
             ok = f.cls is not None and (f.cls is td or td in ix.mro(f.cls))
-            ctx.check(ok, key, f"`{unparse(recv)}` is used as a component type outside a TypeDecorator", 
+            ctx.check(ok, key, f"`{unparse(members[0][2])}` is used as a component type outside a TypeDecorator",
                       "self.impl_instance of a TypeDecorator (dialect-level on the dialect copy, see _gen_dialect_impl instance)", loc)
             uses_decorator_impl.append(key)
             continue
-        ctx.check(how == "dialect-level", key,
+        bad = [(h, c, recv) for h, c, recv in hows if h not in ("dialect-level", "decorator-impl")
+               or (h == "decorator-impl" and not (f.cls is not None and (f.cls is td or td in ix.mro(f.cls))))]
+        how, c, recv = bad[0] if bad else hows[0]
+        ctx.check(not bad, key,
                   f"`{unparse(c)[:80]}`: the processor of a component type is taken from `{unparse(recv)[:60]}` which was not adapted "
                   f"with .{ADAPT}(dialect) ({how}): the dialect's own implementation of that type (its bind/result conversion, "
                   f"variants, a nested TypeDecorator's hooks) is skipped and values do not round-trip",
-                  f"`{unparse(recv)[:60]}` is {how}", loc)
+                  f"`{unparse(recv)[:60]}` is {how} ({len(members)} site(s))", f"{f.module.path}:{c.lineno}")
     for k in R3_EXCEPTIONS:
         ctx.require(any(k == kk.split("#")[0] for kk in list(counts)), f"R3 exception entry {k} no longer matches a site")
 
@@ -514,14 +572,20 @@ def r3(ctx):
             src_ok = False
             if how == "dialect-level":
                 # ... of the per-dialect impl chosen by load_dialect_impl (or the plain impl)
-                e = v
-                while isinstance(e, ast.Name):
-                    vs = _bindings(g.node, e.id)
-                    e = vs[0] if len(vs) == 1 else None
-                inner = e.func.value if isinstance(e, ast.Call) and isinstance(e.func, ast.Attribute) else None
-                while isinstance(inner, ast.Name):
-                    vs = _bindings(g.node, inner.id)
-                    inner = vs[0] if len(vs) == 1 else None
+                def through(e, n=0):
+                    # locals bound once and `obj.attr` read back after a store in this function
+                    while e is not None and n < 6:
+                        n += 1
+                        if isinstance(e, ast.Name):
+                            vs = _bindings(g.node, e.id)
+                        elif isinstance(e, ast.Attribute) and isinstance(e.value, ast.Name) and e.value.id != "self":
+                            vs = [st2.value for t2, _n2, st2 in attr_stores(g.node) if t2 == dotted(e) and isinstance(st2, ast.Assign)]
+                        else:
+                            break
+                        e = vs[0] if len(vs) == 1 else None
+                    return e
+                e = through(v)
+                inner = through(e.func.value) if isinstance(e, ast.Call) and isinstance(e.func, ast.Attribute) else None
                 src_ok = (isinstance(inner, ast.Call) and dotted(inner.func) == "self.load_dialect_impl") or \
                          dotted(inner) in ("self.impl_instance", "self.impl")
             if not (how == "dialect-level" and src_ok):
@@ -542,9 +606,15 @@ def r3(ctx):
             for k, v in zip(n.keys, n.values):
                 if isinstance(k, ast.Constant) and k.value == "impl":
                     impl_vals.append(v)
+        elif isinstance(n, ast.Call) and isinstance(n.func, ast.Name) and n.func.id == "dict":
+            impl_vals.extend(k.value for k in n.keywords if k.arg == "impl")
+        elif isinstance(n, ast.Assign):
+            for t in n.targets:
+                if isinstance(t, ast.Subscript) and isinstance(t.slice, ast.Constant) and t.slice.value == "impl":
+                    impl_vals.append(n.value)
     okm = False
-    if len(impl_vals) == 1 and isinstance(impl_vals[0], ast.Name):
-        vs = _bindings(di.node, impl_vals[0].id)
+    if len(impl_vals) == 1:
+        vs = _terminal_values(impl_vals[0], di.node)
         fns = [dotted(v.func) if isinstance(v, ast.Call) else None for v in vs]
         okm = "self._gen_dialect_impl" in fns and set(fns) <= {"self._gen_dialect_impl", "self.adapt"}
     ctx.check(okm, f"{di.key}:impl-from-gen-dialect-impl",
@@ -623,7 +693,7 @@ def _falsy_to_none(fn, p, pm):
     return out
 
 
-@R.rule("C09-R4", floor=90, template="T-GUARD",
+@R.rule("C09-R4", floor=70, template="T-GUARD",
         desc="in every generated bind / result / literal processor of a TypeEngine subclass only None maps to None: no "
              "branch selected by the bare truthiness or emptiness of the processed value yields None (b'', '', 0, 0.0, "
              "False, timedelta(0), [] and {} are members of the types' domains, NULL is not their image)")
@@ -637,21 +707,45 @@ def r4(ctx):
             f = c.methods.get(kind)
             if f is None or f.type_only:
                 continue
-            procs = sorted((n for n in ast.walk(f.node) if isinstance(n, (ast.FunctionDef, ast.Lambda)) and n is not f.node and n.args.args),
-                           key=lambda n: (n.lineno, n.col_offset))
+            # the generated processors: closures of the method itself and of the same-class / same-module helpers it
+            # calls (a factory extracted into `self._compose(...)` still generates this method's processors)
+            owners = [f] + _helpers_called(ix, c, f)
+            procs = []
+            for o in owners:
+                procs.extend((o, n) for n in sorted((n for n in ast.walk(o.node) if isinstance(n, (ast.FunctionDef, ast.Lambda))
+                                                     and n is not o.node and n.args.args), key=lambda n: (n.lineno, n.col_offset)))
             if not procs:
                 continue
             ctx.functions_analysed.add(f.key)
-            pm = f.module.parents()
-            for i, fn in enumerate(procs, 1):
+            bad = []
+            for o, fn in procs:
+                pm = o.module.parents()
                 p = fn.args.args[0].arg
-                key = f"{f.key}:{getattr(fn, 'name', 'lambda')}#{i}"
-                bad = _falsy_to_none(fn, p, pm)
-                ctx.check(not bad, key,
-                          f"{c.qualname}.{kind}: the generated processor turns every FALSY `{p}` into None (SQL NULL): "
-                          f"{'; '.join(bad)} -- empty bytes / '' / 0 / 0.0 / False / timedelta(0) / [] / {{}} are legitimate "
-                          f"values of the type and would be stored or returned as NULL (only `{p} is None` may map to None)",
-                          f"no falsy value of `{p}` is mapped to None", f"{f.module.path}:{fn.lineno}")
+                for b in _falsy_to_none(fn, p, pm):
+                    bad.append(f"{getattr(fn, 'name', 'lambda')}@{o.qualname} line {fn.lineno} (`{p}`): {b}")
+            # one instance per method: how many closures a method spreads its processor over is not an obligation
+            ctx.check(not bad, f"{f.key}:generated-processors",
+                      f"{c.qualname}.{kind}: a generated processor turns every FALSY value into None (SQL NULL): "
+                      f"{'; '.join(bad)} -- empty bytes / '' / 0 / 0.0 / False / timedelta(0) / [] / {{}} are legitimate "
+                      f"values of the type and would be stored or returned as NULL (only `value is None` may map to None)",
+                      f"{len(procs)} generated processor(s): no falsy value is mapped to None", f.loc)
+
+
+def _helpers_called(ix, cls, f):
+    out, seen = [], {f.key}
+    for c in calls_in(f.node, into_nested=True):
+        tgt = None
+        fn = c.func
+        if isinstance(fn, ast.Attribute) and isinstance(fn.value, ast.Name) and fn.value.id in ("self", "cls"):
+            tgt = ix.resolve_method(cls, fn.attr)
+            if tgt is not None and tgt.name in KINDS:
+                tgt = None  # another processor factory: has its own instance
+        elif isinstance(fn, ast.Name):
+            tgt = f.module.functions.get(fn.id)
+        if tgt is not None and tgt.key not in seen and tgt.module is f.module and not tgt.type_only:
+            seen.add(tgt.key)
+            out.append(tgt)
+    return out
 
 
 # ---------------------------------------------------------------------- self-test battery
@@ -731,3 +825,82 @@ R.mutant("benign-binary-bind-ternary-is-not-none", "sql/sqltypes.py",
 R.mutant("benign-binary-result-falsy-passed-through", "sql/sqltypes.py",
          sub("            if value is not None:\n                value = bytes(value)\n            return value", "            if value:\n                value = bytes(value)\n            return value"), None)
 
+
+# ---- rob-H2: shape variants of the TypeDecorator factories, the shared processors, the memo (benign must stay silent)
+R.mutant('benign-bind-bool-local-early-return', 'sql/type_api.py',
+         sub('        if self._has_bind_processor:\n            process_param = self.process_bind_param\n            impl_processor = self.impl_instance.bind_processor(dialect)\n            if impl_processor:\n                fixed_impl_processor = impl_processor\n                fixed_process_param = process_param\n\n                def process(value: Optional[_T]) -> Any:\n                    return fixed_impl_processor(\n                        fixed_process_param(value, dialect)\n                    )\n\n            else:\n                fixed_process_param = process_param\n\n                def process(value: Optional[_T]) -> Any:\n                    return fixed_process_param(value, dialect)\n\n            return process\n        else:\n            return self.impl_instance.bind_processor(dialect)\n',
+             '        wraps = self._has_bind_processor\n        impl_processor = self.impl_instance.bind_processor(dialect)\n        if not wraps:\n            return impl_processor\n        process_param = self.process_bind_param\n        if impl_processor is None:\n\n            def process(value: Optional[_T]) -> Any:\n                return process_param(value, dialect)\n\n            return process\n\n        def process(value: Optional[_T]) -> Any:\n            converted = process_param(value, dialect)\n            return impl_processor(converted)\n\n        return process\n'), None)
+R.mutant('benign-bind-lambdas', 'sql/type_api.py',
+         sub('        if self._has_bind_processor:\n            process_param = self.process_bind_param\n            impl_processor = self.impl_instance.bind_processor(dialect)\n            if impl_processor:\n                fixed_impl_processor = impl_processor\n                fixed_process_param = process_param\n\n                def process(value: Optional[_T]) -> Any:\n                    return fixed_impl_processor(\n                        fixed_process_param(value, dialect)\n                    )\n\n            else:\n                fixed_process_param = process_param\n\n                def process(value: Optional[_T]) -> Any:\n                    return fixed_process_param(value, dialect)\n\n            return process\n        else:\n            return self.impl_instance.bind_processor(dialect)\n',
+             '        if not self._has_bind_processor:\n            return self.impl_instance.bind_processor(dialect)\n        user = self.process_bind_param\n        inner = self.impl_instance.bind_processor(dialect)\n        return (\n            (lambda value: inner(user(value, dialect)))\n            if inner\n            else (lambda value: user(value, dialect))\n        )\n'), None)
+R.mutant('benign-bind-extracted-helper', 'sql/type_api.py',
+         sub('        if self._has_bind_processor:\n            process_param = self.process_bind_param\n            impl_processor = self.impl_instance.bind_processor(dialect)\n            if impl_processor:\n                fixed_impl_processor = impl_processor\n                fixed_process_param = process_param\n\n                def process(value: Optional[_T]) -> Any:\n                    return fixed_impl_processor(\n                        fixed_process_param(value, dialect)\n                    )\n\n            else:\n                fixed_process_param = process_param\n\n                def process(value: Optional[_T]) -> Any:\n                    return fixed_process_param(value, dialect)\n\n            return process\n        else:\n            return self.impl_instance.bind_processor(dialect)\n',
+             '        if self._has_bind_processor:\n            return self._compose_bind(\n                self.process_bind_param,\n                self.impl_instance.bind_processor(dialect),\n                dialect,\n            )\n        return self.impl_instance.bind_processor(dialect)\n\n    def _compose_bind(self, user_stage, impl_stage, dialect):\n        if impl_stage:\n\n            def process(value: Optional[_T]) -> Any:\n                return impl_stage(user_stage(value, dialect))\n\n        else:\n\n            def process(value: Optional[_T]) -> Any:\n                return user_stage(value, dialect)\n\n        return process\n'), None)
+R.mutant('benign-result-ternary-closures', 'sql/type_api.py',
+         sub('        if self._has_result_processor:\n            process_value = self.process_result_value\n            impl_processor = self.impl_instance.result_processor(\n                dialect, coltype\n            )\n            if impl_processor:\n                fixed_process_value = process_value\n                fixed_impl_processor = impl_processor\n\n                def process(value: Any) -> Optional[_T]:\n                    return fixed_process_value(\n                        fixed_impl_processor(value), dialect\n                    )\n\n            else:\n                fixed_process_value = process_value\n\n                def process(value: Any) -> Optional[_T]:\n                    return fixed_process_value(value, dialect)\n\n            return process\n        else:\n            return self.impl_instance.result_processor(dialect, coltype)\n',
+             '        if not self._has_result_processor:\n            return self.impl_instance.result_processor(dialect, coltype)\n        process_value = self.process_result_value\n        impl_processor = self.impl_instance.result_processor(dialect, coltype)\n\n        def with_impl(value: Any) -> Optional[_T]:\n            return process_value(impl_processor(value), dialect)\n\n        def without_impl(value: Any) -> Optional[_T]:\n            return process_value(value, dialect)\n\n        return with_impl if impl_processor else without_impl\n'), None)
+R.mutant('benign-literal-merged-closures', 'sql/type_api.py',
+         sub('        if self._has_literal_processor:\n            process_literal_param = self.process_literal_param\n            process_bind_param = None\n        elif self._has_bind_processor:\n            # use the bind processor if dont have a literal processor,\n            # but we have an impl literal processor\n            process_literal_param = None\n            process_bind_param = self.process_bind_param\n        else:\n            process_literal_param = None\n            process_bind_param = None\n\n        if process_literal_param is not None:\n            impl_processor = self.impl_instance.literal_processor(dialect)\n            if impl_processor:\n                fixed_impl_processor = impl_processor\n                fixed_process_literal_param = process_literal_param\n\n                def process(value: Any) -> str:\n                    return fixed_impl_processor(\n                        fixed_process_literal_param(value, dialect)\n                    )\n\n            else:\n                fixed_process_literal_param = process_literal_param\n\n                def process(value: Any) -> str:\n                    return fixed_process_literal_param(value, dialect)\n\n            return process\n\n        elif process_bind_param is not None:\n            impl_processor = self.impl_instance.literal_processor(dialect)\n            if not impl_processor:\n                return None\n            else:\n                fixed_impl_processor = impl_processor\n                fixed_process_bind_param = process_bind_param\n\n                def process(value: Any) -> str:\n                    return fixed_impl_processor(\n                        fixed_process_bind_param(value, dialect)\n                    )\n\n                return process\n        else:\n            return self.impl_instance.literal_processor(dialect)\n',
+             '        if self._has_literal_processor:\n            user = self.process_literal_param\n            fallback = False\n        elif self._has_bind_processor:\n            user = self.process_bind_param\n            fallback = True\n        else:\n            return self.impl_instance.literal_processor(dialect)\n        impl_processor = self.impl_instance.literal_processor(dialect)\n        if impl_processor:\n\n            def process(value: Any) -> str:\n                return impl_processor(user(value, dialect))\n\n            return process\n        if fallback:\n            return None\n\n        def process(value: Any) -> str:\n            return user(value, dialect)\n\n        return process\n'), None)
+R.mutant('benign-literal-inline-overridden-test', 'sql/type_api.py',
+         sub('        if self._has_literal_processor:\n            process_literal_param = self.process_literal_param\n            process_bind_param = None\n',
+             '        if util.method_is_overridden(\n            self, TypeDecorator.process_literal_param\n        ):\n            process_literal_param = self.process_literal_param\n            process_bind_param = None\n'), None)
+R.mutant('bind-early-return-flag-inverted', 'sql/type_api.py',
+         sub('        if self._has_bind_processor:\n            process_param = self.process_bind_param\n            impl_processor = self.impl_instance.bind_processor(dialect)\n            if impl_processor:\n                fixed_impl_processor = impl_processor\n                fixed_process_param = process_param\n\n                def process(value: Optional[_T]) -> Any:\n                    return fixed_impl_processor(\n                        fixed_process_param(value, dialect)\n                    )\n\n            else:\n                fixed_process_param = process_param\n\n                def process(value: Optional[_T]) -> Any:\n                    return fixed_process_param(value, dialect)\n\n            return process\n        else:\n            return self.impl_instance.bind_processor(dialect)\n',
+             '        if self._has_bind_processor:\n            return self.impl_instance.bind_processor(dialect)\n        process_param = self.process_bind_param\n        impl_processor = self.impl_instance.bind_processor(dialect)\n        if impl_processor:\n\n            def process(value: Optional[_T]) -> Any:\n                return impl_processor(process_param(value, dialect))\n\n        else:\n\n            def process(value: Optional[_T]) -> Any:\n                return process_param(value, dialect)\n\n        return process\n'), 'C09-R1')
+R.mutant('result-impl-test-inverted', 'sql/type_api.py',
+         sub('            if impl_processor:\n                fixed_process_value = process_value\n',
+             '            if not impl_processor:\n                fixed_process_value = process_value\n'), 'C09-R1')
+R.mutant('literal-bind-hook-preferred-over-literal-hook', 'sql/type_api.py',
+         sub('        if self._has_literal_processor:\n            process_literal_param = self.process_literal_param\n            process_bind_param = None\n        elif self._has_bind_processor:\n            # use the bind processor if dont have a literal processor,\n            # but we have an impl literal processor\n            process_literal_param = None\n            process_bind_param = self.process_bind_param\n',
+             '        if self._has_bind_processor:\n            process_literal_param = None\n            process_bind_param = self.process_bind_param\n        elif self._has_literal_processor:\n            process_literal_param = self.process_literal_param\n            process_bind_param = None\n'), 'C09-R1')
+R.mutant('bind-no-hook-returns-none', 'sql/type_api.py',
+         sub('        else:\n            return self.impl_instance.bind_processor(dialect)\n',
+             '        else:\n            return None\n'), 'C09-R1')
+R.mutant('bind-closure-skips-none-values', 'sql/type_api.py',
+         sub('                def process(value: Optional[_T]) -> Any:\n                    return fixed_process_param(value, dialect)\n',
+             '                def process(value: Optional[_T]) -> Any:\n                    if value is None:\n                        return None\n                    return fixed_process_param(value, dialect)\n'), 'C09-R1')
+R.mutant('benign-to-float-inverted-guard', 'engine/_processors_cy.py',
+         sub('    if value is None:\n        return None\n    return float(value)\n',
+             '    if value is not None:\n        return float(value)\n    return None\n'), None)
+R.mutant('benign-to-str-conditional-expression', 'engine/_processors_cy.py',
+         sub('    if value is None:\n        return None\n    return str(value)\n',
+             '    return None if value is None else str(value)\n'), None)
+R.mutant('benign-decimal-early-return-no-else', 'engine/_processors_cy.py',
+         sub('        if value is None:\n            return None\n        else:\n            return self.type_(self.format_ % value)\n',
+             '        if value is None:\n            return value\n        formatted = self.format_ % value\n        return self.type_(formatted)\n'), None)
+R.mutant('to-str-none-becomes-text', 'engine/_processors_cy.py',
+         sub('    if value is None:\n        return None\n    return str(value)\n',
+             '    return str(value) if value is not None else str(None)\n'), 'C09-R2')
+R.mutant('to-float-none-replaced-by-zero', 'engine/_processors_cy.py',
+         sub('    if value is None:\n        return None\n    return float(value)\n',
+             '    if value is None:\n        value = 0.0\n    return float(value)\n'), 'C09-R2')
+R.mutant('benign-dialect-info-early-return-subscript-store', 'sql/type_api.py',
+         sub('        if self in dialect._type_memos:\n            return dialect._type_memos[self]\n        else:\n            impl = self._gen_dialect_impl(dialect)\n            if impl is self:\n                impl = self.adapt(type(self))\n            # this can\'t be self, else we create a cycle\n            assert impl is not self\n            d: _TypeMemoDict = {"impl": impl, "result": {}}\n            dialect._type_memos[self] = d\n            return d\n',
+             '        memos = dialect._type_memos\n        if self in memos:\n            return memos[self]\n        generated = self._gen_dialect_impl(dialect)\n        impl = self.adapt(type(self)) if generated is self else generated\n        # this can\'t be self, else we create a cycle\n        assert impl is not self\n        d: _TypeMemoDict = {"result": {}}\n        d["impl"] = impl\n        memos[self] = d\n        return d\n'), None)
+R.mutant('benign-cached-bind-impl-local', 'sql/type_api.py',
+         sub('        d["bind"] = bp = d["impl"].bind_processor(dialect)\n        return bp\n',
+             '        impl = d["impl"]\n        bp = impl.bind_processor(dialect)\n        d["bind"] = bp\n        return bp\n'), None)
+R.mutant('benign-cached-result-impl-helper', 'sql/type_api.py',
+         sub('        rp = d["impl"].result_processor(dialect, coltype)\n        d["result"][coltype] = rp\n        return rp\n',
+             '        rp = self._memo_impl(dialect).result_processor(dialect, coltype)\n        d["result"][coltype] = rp\n        return rp\n\n    def _memo_impl(self, dialect):\n        info = self._dialect_info(dialect)\n        return info["impl"]\n'), None)
+R.mutant('benign-gen-dialect-impl-split-stores', 'sql/type_api.py',
+         sub('        tt.impl = tt.impl_instance = typedesc\n        return tt\n\n    def _with_collation(',
+             '        tt.impl_instance = typedesc\n        tt.impl = tt.impl_instance\n        return tt\n\n    def _with_collation('), None)
+R.mutant('dialect-info-memo-impl-is-self', 'sql/type_api.py',
+         sub('            d: _TypeMemoDict = {"impl": impl, "result": {}}\n',
+             '            d: _TypeMemoDict = {"impl": self, "result": {}}\n'), 'C09-R3')
+R.mutant('cached-literal-processor-from-raw-self-helper', 'sql/type_api.py',
+         sub('        d["literal"] = lp = d["impl"].literal_processor(dialect)\n        return lp\n',
+             '        d["literal"] = lp = self._lit_source().literal_processor(dialect)\n        return lp\n\n    def _lit_source(self):\n        return self.copy()\n'), 'C09-R3')
+
+# rob-H2: rfH_12 family (inner test inverted, common assignment hoisted) and closures generated by an extracted helper
+R.mutant('benign-result-inner-test-inverted-common-assignment-hoisted', 'sql/type_api.py',
+         sub('            if impl_processor:\n                fixed_process_value = process_value\n                fixed_impl_processor = impl_processor\n\n                def process(value: Any) -> Optional[_T]:\n                    return fixed_process_value(\n                        fixed_impl_processor(value), dialect\n                    )\n\n            else:\n                fixed_process_value = process_value\n\n                def process(value: Any) -> Optional[_T]:\n                    return fixed_process_value(value, dialect)\n',
+             '            fixed_process_value = process_value\n            if not impl_processor:\n\n                def process(value: Any) -> Optional[_T]:\n                    return fixed_process_value(value, dialect)\n\n            else:\n                fixed_impl_processor = impl_processor\n\n                def process(value: Any) -> Optional[_T]:\n                    return fixed_process_value(\n                        fixed_impl_processor(value), dialect\n                    )\n'), None)
+R.mutant('benign-binary-bind-closure-from-helper', 'sql/sqltypes.py',
+         sub('        def process(value):\n            if value is not None:\n                return DBAPIBinary(value)\n            else:\n                return None\n\n        return process\n',
+             '        return self._wrap_binary(DBAPIBinary)\n\n    def _wrap_binary(self, ctor):\n        def process(value):\n            if value is None:\n                return None\n            return ctor(value)\n\n        return process\n'), None)
+R.mutant('binary-bind-helper-closure-empty-to-null', 'sql/sqltypes.py',
+         sub('        def process(value):\n            if value is not None:\n                return DBAPIBinary(value)\n            else:\n                return None\n\n        return process\n',
+             '        return self._wrap_binary(DBAPIBinary)\n\n    def _wrap_binary(self, ctor):\n        def process(value):\n            return ctor(value) if value else None\n\n        return process\n'), 'C09-R4')
